@@ -488,7 +488,28 @@ func (r *Run) checkLinearizable(o *batchOutcome) {
 		}
 		p := o.procs[i]
 		first := strings.TrimSpace(strings.SplitN(string(p.Stdout), "\n", 2)[0])
-		ops = append(ops, porcupine.Operation{ClientId: i, Input: linIn{idx: i, cmd: c}, Call: int64(p.InvokeSeq), Output: linOut{ok: o.ok[i], busy: o.busy[i], ioerr: faulted(p), reply: o.reply[i], human: c.Human, first: first}, Return: int64(p.ReturnSeq)})
+		call, ret := p.InvokeSeq, p.ReturnSeq
+		if (r.Sc.Prop == "C01" || r.Sc.Prop == "C08") && o.ok[i] {
+			// "at the instant its claim took effect": in these samples a command
+			// that wrote is pinned to its commit (the system call that put its
+			// events into the log) instead of floating anywhere between its
+			// start and its end - a claim that chose its task early and wrote
+			// late is judged against the store as it was when it wrote
+			for _, e := range p.Events {
+				if !e.Visible || !e.Posted || e.Errno != 0 || e.PostSeq <= e.Seq {
+					continue
+				}
+				logWrite := (e.Op == "write" || e.Op == "pwrite") && strings.HasSuffix(e.Path, ".jsonl") && e.Res > 0
+				swap := e.Op == "rename" && strings.HasSuffix(e.Path2, ".jsonl")
+				if logWrite || swap {
+					call, ret = e.Seq, e.PostSeq
+				}
+			}
+			if call != p.InvokeSeq {
+				r.W.Count.Inc("lin.pinned_to_commit")
+			}
+		}
+		ops = append(ops, porcupine.Operation{ClientId: i, Input: linIn{idx: i, cmd: c}, Call: int64(call), Output: linOut{ok: o.ok[i], busy: o.busy[i], ioerr: faulted(p), reply: o.reply[i], human: c.Human, first: first}, Return: int64(ret)})
 		if p.ReturnSeq > maxRet {
 			maxRet = p.ReturnSeq
 		}
